@@ -2044,7 +2044,7 @@ namespace bxdecay0 {
           std::cerr << "[debug] bxdecay0::genbbsub: (4) Quadruple beta decay..." << std::endl;
         }
         ier_ = 1;
-        if (chnuclide_ == "Zr96" || chnuclide_ == "Xe136" || chnuclide_ == "Nd150") {
+        if (name_starts_with(chnuclide_, "Zr96") || name_starts_with(chnuclide_, "Xe136") || name_starts_with(chnuclide_, "Nd150")) {
           ier_ = 0;
         }
         if (ier_ != 0) {
